@@ -185,6 +185,7 @@ def run(ctx):
     run_deductive(ctx, mod)
     from props import C04 as _c04
     _c04.verify_block_format(ctx)        # the formatter of one block: every stored component written exactly once, as stored
+    _c04.verify_changelog_format(ctx)    # the formatter of the document: leading blank lines, then every block's text in order, the flag passed on
     _c04.regex_lemmas(ctx, real)         # the line classes the parser's patterns accept (what is and is not a heading / trailer)
     rng = random.Random(ctx.seed)
     rounds = 2500 if ctx.tier == "quick" else 40000
